@@ -33,6 +33,8 @@ def _leaf(fn):
 
 
 def run(ctx, obs):
+    from ..rules import sweeps
+    sweeps.run(ctx, obs, 'C20')
     bids(ctx, obs)
     guards(ctx, obs)
     spm(ctx, obs)
